@@ -268,11 +268,19 @@ C16 = {
         [{"producers": 1 + j % 4, "npush": 2 + j % 7, "initcap": [2, 2, 4, 2, 8][j % 5], "maxcap": [4, 8, 4, 16, 8][j % 5],
           "policy": "pct" if j % 2 else "random", "seed": seed * 100000 + j, "script": []} for j in range(60 if quick else 1500)] +
         [{"producers": 2 + j % 7, "npush": 50 + 37 * (j % 5), "initcap": [2, 4, 2, 16, 4][j % 5], "maxcap": [4, 64, 16, 16, 8][j % 5],
-          "policy": "free", "seed": seed * 100000 + j, "script": [], "lazycons": [0, 30, 200][j % 3]} for j in range(40 if quick else 600)]),
+          "policy": "free", "seed": seed * 100000 + j, "script": [], "lazycons": [0, 30, 200][j % 3]} for j in range(40 if quick else 600)] +
+        # "all initial/maximum capacity pairs": maxima that are not powers of two (the queue rounds them up), gate-scheduled, free-running
+        # and as single-goroutine bursts that fill the queue to its bound after chunk switches with the consumer behind
+        [{"producers": 1 + j % 3, "npush": 3 + j % 9, "initcap": [2, 3, 4, 5, 2][j % 5], "maxcap": [5, 6, 7, 12, 24][j % 5],
+          "policy": "pct" if j % 2 else "random", "seed": seed * 100000 + 7000 + j, "script": []} for j in range(20 if quick else 400)] +
+        [{"producers": 2 + j % 5, "npush": 40 + 29 * (j % 4), "initcap": [2, 3, 4, 5, 2][j % 5], "maxcap": [5, 6, 7, 12, 24][j % 5],
+          "policy": "free", "seed": seed * 100000 + 8000 + j, "script": [], "lazycons": [0, 30, 200][j % 3]} for j in range(15 if quick else 300)] +
+        [{"producers": 1, "npush": j % 7, "initcap": [2, 3, 4, 5, 2, 2, 4, 8][j % 8], "maxcap": [5, 6, 7, 12, 24, 4, 16, 8][j % 8],
+          "policy": "bursts", "seed": seed * 100000 + 9000 + j, "script": []} for j in range(40 if quick else 800)]),
     "explanation": "states/transitions: TLC totals for MPSC.tla instances (NoDup, Order, Complete, Bounded, RefusedOnlyWhenFull); "
                    "traces_validated_against_impl: histories of the real queue judged by MPSCHist.tla",
     "assumptions": ["gate runs serialise goroutines at the per-access hook points of mpsc.go", "one consumer as the cache uses the queue",
-                    "capacities 2..16 initial, 4..64 maximum"],
+                    "capacities 2..16 initial, 4..64 maximum, incl. maxima that are not powers of two (5, 6, 7, 12, 24)"],
 }
 
 
